@@ -252,3 +252,170 @@ def act_judge(lines, meta, rules, outs, mod, spec):
             if v < r:
                 bad.append("log call %s: used version %d although version %d had been returned before it began" % (m[2], v, r))
     return bad
+
+
+# ----------------------------------------------------------------------------- level-table acceptor (drivers/C02lvl.lean)
+def lvl_lines(run):
+    """Projection of a real trace on the level-table protocol (Conc/Levels.lean): creations of levels, add(),
+    remove(id) and the log calls made at run-time levels.  Returns (lines, meta) or None when the run is outside the
+    model (remove-all, errors).  meta[i] = what the real code did at line i, for `lvl_judge`."""
+    s = run.sched
+    if s.deadlock or s.errors or s.aborted:
+        return None
+    if any(op[0] == "removeall" for ops in run.program["threads"] for op in ops):
+        return None
+    tr = s.trace
+    out, meta = ["reset"], [None]
+    base = run.builtin_levels
+    hmap = {}            # real handler id -> model handler number (construction order)
+    lvl_index = {}       # level name -> number (creation order)
+    published = [0]
+    st = {}
+
+    def emit(line, m=None):
+        out.append(line)
+        meta.append(m)
+
+    def later(pos, tn, stop_kinds):
+        """events of thread tn after pos up to (excluding) its next event of a kind in stop_kinds"""
+        for e in tr[pos + 1:]:
+            if e[0] == tn:
+                if e[1] in stop_kinds:
+                    return
+                yield e
+
+    # the initial handlers were built and registered before the threads started
+    for hid in run.initial_ids:
+        h = len(hmap)
+        hmap[hid] = h
+        for l in ("98 startAdd", "98 acq"):
+            emit(l)
+        emit("98 construct", ("construct", h, 0))
+        emit("98 register")
+        emit("98 rel")
+
+    for pos, (tn, kind, obj, val) in enumerate(tr):
+        if not tn.startswith("t"):
+            return None
+        t = int(tn[1:])
+        cur = st.get(t)
+        if kind == "invoke":
+            op = json.loads(val)
+            st.pop(t, None)
+            if op[0] == "newlevel":
+                st[t] = {"op": "level", "name": op[1], "locked": False}
+                emit("%d startLevel" % t)
+            elif op[0] == "add":
+                st[t] = {"op": "add", "locked": False}
+                emit("%d startAdd" % t)
+            elif op[0] == "remove":
+                evs = list(later(pos, tn, ("return",)))
+                if any(e[1] == "W" and e[2] == "core.handlers" for e in evs) and op[1] in hmap:
+                    st[t] = {"op": "remove", "locked": False}
+                    emit("%d startRemove %d" % (t, hmap[op[1]]))
+            elif op[0] == "log" and op[2] in run.custom_levels:
+                evs = list(later(pos, tn, ("return",)))
+                if any(e[1] == "Rd" and e[2] == "core.levels_lookup" for e in evs):
+                    st[t] = {"op": "log", "level": op[2], "id": obj}
+                    # the level number is only known once the level exists; a log that precedes the creation reads
+                    # a table without the name: give it the number the name WILL get (names are created once)
+        elif cur is None:
+            continue
+        elif kind == "return":
+            if cur["op"] == "log" and cur.get("started"):
+                if cur.get("phase") in ("l1", "l2"):
+                    emit("%d done" % t)
+            st.pop(t, None)
+        elif cur["op"] == "level":
+            if kind == "acquired" and obj == "core":
+                cur["locked"] = True
+                emit("%d acq" % t)
+            elif kind == "Wd" and obj == "core.levels_ansi_codes" and val[1]:
+                lvl_index[val[0]] = len(lvl_index)
+                emit("%d setAnsi" % t)
+            elif kind == "Wd" and obj == "core.levels_lookup" and val[1]:
+                published[0] += 1
+                emit("%d pubLookup" % t)
+            elif kind == "Rv" and obj == "core.handlers" and cur["locked"]:
+                emit("%d readReg" % t, ("reg", [hmap.get(h) for h in val]))
+            elif kind == "upd" and cur["locked"]:
+                emit("%d upd %d" % (t, hmap[int(obj[1:])]))
+            elif kind == "rel" and obj == "core":
+                cur["locked"] = False
+                emit("%d rel" % t)
+        elif cur["op"] == "add":
+            if kind == "construct":
+                h = len(hmap)
+                hmap[int(obj[1:])] = h
+                emit("%d construct" % t, ("construct", h, val - base))
+            elif kind == "acquired" and obj == "core":
+                sect = list(later(pos, tn, ("rel",)))
+                if any(e[1] == "construct" or (e[1] == "W" and e[2] == "core.handlers") for e in sect):
+                    cur["locked"] = True
+                    emit("%d acq" % t)
+            elif kind == "W" and obj == "core.handlers":
+                emit("%d register" % t)
+            elif kind == "rel" and obj == "core" and cur["locked"]:
+                cur["locked"] = False
+                emit("%d rel" % t)
+        elif cur["op"] == "remove":
+            if kind == "acquired" and obj == "core":
+                cur["locked"] = True
+                emit("%d acq" % t)
+            elif kind == "W" and obj == "core.handlers":
+                emit("%d unreg" % t)
+            elif kind == "rel" and obj == "core" and cur["locked"]:
+                cur["locked"] = False
+                emit("%d rel" % t)
+        elif cur["op"] == "log":
+            if kind == "Rd" and obj == "core.levels_lookup" and not cur.get("started"):
+                name = cur["level"]
+                # number of the level: its creation index if it has been created, otherwise the next free one
+                l = lvl_index.get(name, len(lvl_index))
+                cur["l"] = l
+                cur["started"] = True
+                emit("%d startLog %d" % (t, l))
+                emit("%d readLookup %d" % (t, published[0]), ("lookup", val[1], cur["id"]))
+                cur["phase"] = "l1" if val[1] else "idle"
+            elif kind == "Rv" and obj == "core.handlers" and cur.get("phase") == "l1":
+                emit("%d readReg" % t, ("reg", [hmap.get(h) for h in val]))
+                cur["phase"] = "l2"
+            elif kind == "visit" and cur.get("phase") == "l2":
+                hid = int(obj[1:])
+                pre = None
+                for e in later(pos, tn, ("visit", "return")):
+                    if e[1] == "Rd" and e[2] == "h%d.pre" % hid:
+                        pre = e[3][1]
+                        break
+                emit("%d emit %d" % (t, hmap[hid]), ("emit", cur["l"], pre, cur["id"], hid))
+    return out, meta
+
+
+def lvl_judge(lines, meta, outs):
+    bad = []
+    for i, (m, o) in enumerate(zip(meta, outs)):
+        if o.startswith(("reject", "bad-op")):
+            bad.append("event %d %r rejected by Levels.step: %s" % (i, lines[i], o))
+            break
+        if m is None:
+            continue
+        w = o.split()
+        if m[0] == "construct":
+            if w[1:] != ["construct", str(m[1]), str(m[2])]:
+                bad.append("event %d: the model's new handler is %s, the implementation built handler %d knowing %d "
+                           "run-time level(s)" % (i, " ".join(w[1:]), m[1], m[2]))
+        elif m[0] == "reg":
+            want = "[" + ", ".join(str(h) for h in m[1]) + "]"
+            if " ".join(w[2:]) != want:
+                bad.append("event %d: registry snapshot differs: model %s, implementation %s" % (i, " ".join(w[2:]), want))
+        elif m[0] == "lookup":
+            if (w[1] == "exists") != m[1]:
+                bad.append("log call %s: the model finds the level %s, the implementation %s"
+                           % (m[2], w[1], "exists" if m[1] else "missing"))
+        elif m[0] == "emit" and m[2] is not None:
+            known = int(w[2])
+            if (m[1] < known) != m[2]:
+                bad.append("log call %s at run-time level #%d, handler %d: the model's handler knows %d level(s), the "
+                           "implementation's look-up in _precolorized_formats %s"
+                           % (m[3], m[1], m[4], known, "succeeded" if m[2] else "failed"))
+    return bad
